@@ -175,12 +175,12 @@ theorem primaryGC_g (hU : Univ c.kind U) {m : Mem} {d : Disk} {k : Nat}
     simp only [Option.some.injEq] at hres; subst hres
     rcases hp1 with h | h
     · cases h
-    · exact ⟨k, h, by omega⟩
+    · exact ⟨k, h.visited _, by omega⟩
   | err =>
     simp only [Option.some.injEq] at hres; subst hres
     rcases hp1 with h | h
     · cases h
-    · exact ⟨k, h, by omega⟩
+    · exact ⟨k, h.visited _, by omega⟩
   | ok =>
   have hG1 : GInv c U ⟨cfg, m1, d1⟩ spec k B := by
     rcases hp1 with h | h
@@ -198,12 +198,12 @@ theorem primaryGC_g (hU : Univ c.kind U) {m : Mem} {d : Disk} {k : Nat}
     simp only [Option.some.injEq] at hres; subst hres
     rcases hp2 with h | h
     · cases h
-    · exact ⟨k, h, by omega⟩
+    · exact ⟨k, h.visited _, by omega⟩
   | err =>
     simp only [Option.some.injEq] at hres; subst hres
     rcases hp2 with h | h
     · cases h
-    · exact ⟨k, h, by omega⟩
+    · exact ⟨k, h.visited _, by omega⟩
   | ok =>
   have hG2 : GInv c U ⟨cfg, m2, d2⟩ spec k B := by
     rcases hp2 with h | h
